@@ -144,6 +144,13 @@ type Report struct {
 	Assumptions []string
 	Undecided   []string
 	replays     int
+	BoundedFail []BoundedFailure
+}
+
+// BoundedFailure: a failing input found by a bounded stand-in (a real failing input on the real code).
+type BoundedFailure struct {
+	Name   string
+	Inputs []string
 }
 
 type FuncTarget struct {
